@@ -143,7 +143,7 @@ func (g *c08gen) width(depth int) int {
 	x := g.r.Intn(100)
 	switch {
 	case x < 3 && depth <= 1:
-		return g.r.Range(8, 16)
+		return g.r.Range(8, 34)
 	case x < 30:
 		return 0
 	case x < 55:
@@ -268,6 +268,110 @@ func (g *c08gen) edit(t *TNode) {
 			n.Kids = append(n.Kids, g.tree(g.r.Pick(c08anyTags), 2, 3, &b))
 		}
 	}
+}
+
+// c08wide: a root with 21..45 children, beyond the 20 up to which sort.SliceStable is a plain
+// insertion sort. safe=true keeps every sortValue level either all-Yearer or all-non-Yearer, where
+// isLessThan is a strict weak order; otherwise DATE / EVEN / RESI mix with plain tags of their level.
+func (g *c08gen) wide(safe bool) *TNode {
+	t := T("ZROOT", "", "")
+	tags := []string{"NAME", "NOTE", "OCCU", "TITL", "BIRT", "EVEN", "RESI", "DEAT", "BURI", "ZZA", "SEX", "_UID"}
+	if !safe {
+		tags = append(tags, "DATE", "DATE", "CHR", "ADOP", "PLAC")
+	}
+	for n := g.r.Range(21, 45); n > 0; n-- {
+		tag := g.r.Pick(tags)
+		k := T(tag, g.value(tag), "")
+		if tag == "EVEN" || tag == "RESI" || tag == "BIRT" {
+			for q := g.r.Range(0, 2); q > 0; q-- {
+				k.Kids = append(k.Kids, T("DATE", g.r.Pick(g.dates), ""))
+			}
+		}
+		if g.r.Chance(1, 8) {
+			b := 3
+			k.Kids = append(k.Kids, g.tree(g.r.Pick(c08plainTags), 2, 3, &b))
+		}
+		t.Kids = append(t.Kids, k)
+	}
+	return t
+}
+
+// c08family: a FAM record with HUSB / WIFE / CHIL lines and, anywhere below, more of them and
+// nested INDI / FAM nodes — the kinds that exist only inside a document (and for which
+// flattenedNodeHeader has its own branch).
+func (g *c08gen) family() *TNode {
+	t := T("FAM", "", "F1")
+	role := func() *TNode {
+		tag := g.r.Pick([]string{"HUSB", "WIFE", "CHIL", "CHIL"})
+		k := T(tag, g.r.Pick([]string{"@I1@", "@I2@", "@I3@", "@I9@", "x", ""}), "")
+		if g.r.Chance(1, 3) {
+			k.Kids = append(k.Kids, T(g.r.Pick([]string{"NOTE", "_FREL", "HUSB", "INDI", "PEDI"}), g.value(""), ""))
+		}
+		return k
+	}
+	for n := g.r.Range(1, 7); n > 0; n-- {
+		switch g.r.Intn(6) {
+		case 0, 1, 2:
+			t.Kids = append(t.Kids, role())
+		case 3:
+			e := T(g.r.Pick([]string{"MARR", "DIV", "EVEN", "RESI"}), "", "")
+			for q := g.r.Range(0, 2); q > 0; q-- {
+				e.Kids = append(e.Kids, T(g.r.Pick([]string{"DATE", "PLAC", "CHIL"}), g.value("DATE"), ""))
+			}
+			t.Kids = append(t.Kids, e)
+		case 4:
+			in := T(g.r.Pick([]string{"INDI", "FAM"}), "", g.r.Pick([]string{"", "X1", "X2"}))
+			if g.r.Bool() {
+				in.Kids = append(in.Kids, role())
+			}
+			t.Kids = append(t.Kids, in)
+		default:
+			b := 4
+			t.Kids = append(t.Kids, g.tree(g.r.Pick(c08level1Tags), 1, 3, &b))
+		}
+	}
+	return t
+}
+
+// c08families decodes one document per side (three individuals and the generated FAM record) and
+// compares the two FamilyNodes.
+func c08families(c *Ctx, lt, rt *TNode, ops string) {
+	mk := func(t *TNode) (gedcom.Node, map[string]int) {
+		var sb strings.Builder
+		sb.WriteString("0 @I1@ INDI\n1 NAME A /B/\n0 @I2@ INDI\n1 NAME C /D/\n0 @I3@ INDI\n")
+		c08gedcomText(t, 0, &sb)
+		doc, err := gedcom.NewDocumentFromString(sb.String())
+		if err != nil {
+			return nil, nil
+		}
+		for _, n := range doc.Nodes() {
+			if n.Tag().Tag() == "FAM" {
+				kinds := map[string]int{}
+				var walk func(n gedcom.Node)
+				walk = func(n gedcom.Node) {
+					kinds[kindOf(n)]++
+					for _, k := range n.Nodes() {
+						walk(k)
+					}
+				}
+				walk(n)
+				return n, kinds
+			}
+		}
+		return nil, nil
+	}
+	ln, lk := mk(lt)
+	rn, _ := mk(rt)
+	if ln == nil || rn == nil {
+		c.Count("skipped: document stream did not decode")
+		return
+	}
+	for _, k := range []string{"FamilyNode", "HusbandNode", "WifeNode", "ChildNode", "IndividualNode"} {
+		if lk[k] > 0 {
+			c.Count("family stream: left input holds a " + k)
+		}
+	}
+	c08run(c, "family records of two documents", ln, rn, ops)
 }
 
 // ---------- running the implementation ----------
@@ -547,6 +651,50 @@ func c08oracle(c *Ctx, in c08input, when string, d *gedcom.NodeDiff, l, r *c08si
 	}
 }
 
+// c08owed: a pair whose inputs are DeepEqual while the diff is not all-two-sided, waiting for the
+// model's verdict on the guard
+type c08owed struct {
+	in         c08input
+	diff       string
+	transitive bool // the Go-side matcher of the known finding: Equals is an equivalence on every level
+}
+
+var c08pending = map[string]c08owed{}
+
+// c08compare is the correspondence comparison. The model's first token is its verdict on the guard
+// of deepEqual_all_two_sided (g), DeepEqual (d) and IsDeepEqual (a); the implementation prints its
+// own three bits in the same place, so they are tied like everything else. All-two-sidedness is owed
+// exactly when the *model* says g=1 (the theorem's hypothesis); with g=0 the failure is the known
+// finding if the Go-side matcher agrees. A Sort the model marks "~" (more than 20 entries compared
+// by a relation that is not a strict weak order: Go's block merge and the model's insertion sort may
+// differ) makes the case inconclusive.
+func c08compare(c *Ctx) func(req, impl, model string) bool {
+	return func(req, impl, model string) bool {
+		if strings.Contains(model, " ; ~ [") {
+			c.Count("inconclusive: Sort of more than 20 entries by a non-strict-weak order")
+			delete(c08pending, req)
+			return true
+		}
+		if strings.HasPrefix(model, "g=1 d=1") {
+			c.Count("model: DeepEqual and guard hold, all-two-sided diff owed (deepEqual_all_two_sided_checked applies)")
+		}
+		if p, ok := c08pending[req]; ok {
+			delete(c08pending, req)
+			if strings.HasPrefix(model, "g=1") {
+				c.Fail("oracle", "", "the inputs are DeepEqual and Equals is an equivalence on every level (model's guard), but the diff is not all-two-sided",
+					p.in, p.diff, "IsDeepEqual() = true")
+			} else {
+				key := ""
+				if !p.transitive {
+					key = "nontransitive-siblings"
+				}
+				c.Fail("oracle", key, "the inputs are DeepEqual but the diff is not all-two-sided", p.in, p.diff, "IsDeepEqual() = true")
+			}
+		}
+		return impl == model
+	}
+}
+
 var c08opNames = map[byte]string{'C': "CompareNodes", 'S': "String", 'E': "IsDeepEqual", 'O': "Sort", 'T': "Tag"}
 
 // c08case runs one pair through the real code: correspondence observation + oracle.
@@ -711,13 +859,10 @@ func c08run(c *Ctx, stream string, ln, rn gedcom.Node, ops string) (intact bool)
 	isDeep := false
 	if !stopped {
 		isDeep = d.IsDeepEqual()
-		// two deep-equal inputs give an all-two-sided diff
+		// two deep-equal inputs give an all-two-sided diff: whether it is owed is decided by the model's
+		// guard (equivLevelsB, proved sound) once the driver has answered — see c08compare
 		if deepEq && !isDeep {
-			key := ""
-			if !transitive {
-				key = "nontransitive-siblings"
-			}
-			c.Oracle(key, "the inputs are DeepEqual but the diff is not all-two-sided", in, d.String(), "IsDeepEqual() = true")
+			c08pending[req] = c08owed{in, d.String(), transitive}
 		}
 	}
 	for i := 0; i < len(ops) && !stopped; i++ {
@@ -742,7 +887,7 @@ func c08run(c *Ctx, stream string, ln, rn gedcom.Node, ops string) (intact bool)
 		})
 		c.Count("op=" + c08opNames[op])
 	}
-	obs := strings.Join(lines, " ; ")
+	obs := fmt.Sprintf("g=%s d=%s a=%s ; ", bit(transitive), bit(deepEq), bit(isDeep)) + strings.Join(lines, " ; ")
 	if !stopped {
 		obs += " ; " + encTree(abstractNode(ln)) + " / " + encTree(abstractNode(rn))
 	}
@@ -846,12 +991,13 @@ func (g *c08gen) randOps() string {
 func init() {
 	runners["C08"] = func(c *Ctx) {
 		c.Rule = "pairs of node trees x operation orders: independent random trees, tree vs permuted copy, tree vs copy with k uniquely tagged leaves inserted/removed under plain parents, tree vs edited copy, RESI chains with non-transitive Equals; every order of {CompareNodes,String,IsDeepEqual,Sort,Tag} up to length 4 on fixed and random pairs, random orders elsewhere; distinct = (which sides each diff entry has, in preorder with depth; operation order)"
+		c.Compare = c08compare(c)
 		dates, dropped := c08checkDates()
 		if len(dropped) > 0 {
 			c.Notes = append(c.Notes, "DATE values dropped from the pool because their Years() ties within 1e-9 with a different date kept in the pool (exact fraction in the model, float64 in Go): "+strings.Join(dropped, ", "))
 		}
 		c.Notes = append(c.Notes,
-			"DATE values come from a pool of plain, constrained and range dates, phrases and unparsable text without float64 near-ties of Years(); _UID values are valid UUIDs (the repair of malformed-_UID equality is C07's); at most 20 children per node (sort.SliceStable is an insertion sort up to 20); INDI roots come from decoded documents, FAM/HUSB/WIFE/CHIL nodes are not generated")
+			"DATE values come from a pool of plain, constrained and range dates, phrases and unparsable text without float64 near-ties of Years(); _UID values are valid UUIDs (the repair of malformed-_UID equality is C07's); nodes have up to 45 children (beyond 20 sort.SliceStable merges blocks: the model is exact when isLessThan is a strict weak order on the entries, other cases are set aside as inconclusive); INDI / FAM / HUSB / WIFE / CHIL nodes come from decoded documents")
 		g := &c08gen{r: c.R.Fork("trees"), dates: dates}
 
 		// 0. the witness of defect 8 and of the non-transitivity finding, always first
@@ -896,11 +1042,35 @@ func init() {
 		}
 
 		// 2. random pairs, random orders
-		n := c.N(60000, 600000)
+		n := c.N(32000, 400000)
 		for i := 0; i < n; i++ {
 			a := g.root()
 			ops := g.randOps()
-			switch g.r.Intn(10) {
+			switch g.r.Intn(12) {
+			case 10: // more than 20 children
+				safe := !g.r.Chance(1, 4)
+				a = g.wide(safe)
+				var b *TNode
+				if g.r.Bool() {
+					b = c08permute(g.r, a)
+					g.edit(b)
+				} else {
+					b = g.wide(safe)
+				}
+				if !strings.Contains(ops, "O") {
+					ops += "O"
+				}
+				c08case(c, "more than 20 children", a, b, ops, 0)
+			case 11: // FAM / HUSB / WIFE / CHIL / INDI inside decoded documents
+				a = g.family()
+				b := c08permute(g.r, a)
+				switch g.r.Intn(3) {
+				case 0:
+					g.edit(b)
+				case 1:
+					b = g.family()
+				}
+				c08families(c, a, b, ops)
 			case 0, 1, 2: // independent
 				b := g.root()
 				if g.r.Chance(2, 3) {
